@@ -675,6 +675,28 @@ def check(prop, tier, pat=None, keep=False):
             print("VIOLATION property=C20 replay=%s no-failing-input-found" % path)
         if extra["error"]:
             print("UNDECIDED property=C20 job=static_scan %s" % extra["error"])
+    if prop == "C04":
+        import c18scan
+        try:
+            r04 = c18scan.run_inplace_scan()
+            err = ("goto-cc failed on %d files: %s" % (len(r04["errors"]), r04["errors"][0]["file"])) if r04["errors"] else ""
+        except Exception as e:
+            r04, err = {"files": 0, "callees": [], "findings": []}, "scan failed: %r" % e
+        extra = {"new_writes": r04["findings"], "error": err, "summary": {
+            "translation_units_src_and_tools": r04["files"], "decryptors_whose_output_lags_their_input": r04["callees"],
+            "call_sites_passing_the_same_buffer_as_in_and_out": r04["findings"],
+            "limitation": "syntactic: identical argument expressions only"}}
+        for w in r04["findings"]:
+            dest = os.path.join(OUTROOT, "replay", prop, "callsite_scan")
+            os.makedirs(dest, exist_ok=True)
+            path = os.path.join(dest, "replay.json")
+            json.dump({"obligation": "precondition SEPARATE(in, out) of a streaming decryptor that holds back a block or a tag", "call_site": w,
+                       "verifier_output": "goto-instrument --show-goto-functions: CALL %s at %s:%s in %s (%s)" % (
+                           w["callee"], w["file"], w["line"], w["function"], w["why"]), "native_reproduced": None}, open(path, "w"), indent=1)
+            print("FAILED-OBLIGATION property=C04 job=callsite_scan %s:%s %s calls %s: %s" % (w["file"], w["line"], w["function"], w["callee"], w["why"]))
+            print("VIOLATION property=C04 replay=%s no-failing-input-found" % path)
+        if err:
+            print("UNDECIDED property=C04 job=callsite_scan %s" % err)
     if prop == "C18":
         import c18scan
         try:
